@@ -33,8 +33,8 @@ def _classes(ctx, seqs, k):
     if len(set(lens)) > 1 and (not grouped or len(runs) != len(set(runs))):
         ctx.count("inputs_lengths_not_grouped")
     shift = uneq = False
-    n = len(seqs)
-    if n <= 80:
+    n = min(len(seqs), 25)
+    if n:
         for i in range(n):
             for j in range(i + 1, n):
                 a, b = seqs[i], seqs[j]
